@@ -8,6 +8,7 @@ import (
 	"os"
 	"path/filepath"
 	"strings"
+	"syscall"
 	"testing"
 	"time"
 
@@ -86,6 +87,7 @@ func TestPlan(t *testing.T) {
 		p.Rule = "binary leg: generated spokfiles (random layouts, comments, lines around 64 KiB) are handed to the real CLI as a file; what `spok --fmt` writes back is the rendering of the tree the CLI built, and must equal the rendering of the tree the parser builds from the same text in-process (so reading the file — encoding, line ends, long lines — loses or alters nothing). Non-trivial: the file changed; distinct by source"
 		binShards("^TestFmtBinary$", 8, 40, 32, 1500)
 		p.Shards = append(p.Shards, ev.ShardSpec{Name: "fmtboundary-0", Test: "^TestFmtBoundary$", TimeoutS: 900})
+		p.Shards = append(p.Shards, ev.ShardSpec{Name: "readfaults-0", Test: "^TestReadFaults$", TimeoutS: 900})
 	case "C04":
 		p.Rule = "binary leg: one task with literal and glob dependencies; the digest spok records in .spok/cache.json after a run from a fresh cache must be the same however spok is pointed at the project (from the project, a nested directory, --spokfile relative / absolute from the project, its parent, a sibling directory; project directories with odd names), must change when a dependency is edited, must not change when another file is, and must return when the edit is undone"
 		binShards("^TestDigestBinary$", 8, 30, 32, 800)
@@ -627,6 +629,8 @@ func replayOther(t *testing.T, v ev.Violation, raw []byte) *rp.Fail {
 		return execForce(nil, newBox(t), c)
 	case "vars-inproc":
 		return execVarsInProcess(t, nil)
+	case "readfault":
+		return execReadFaults(t, nil, newBox(t))
 	case "unpriv-find":
 		var c PermCase
 		if err := json.Unmarshal(raw, &c); err != nil {
@@ -1083,6 +1087,116 @@ func TestFmtBoundary(t *testing.T) {
 	if s.Failed() {
 		t.Fatal("violations recorded")
 	}
+}
+
+// TestReadFaults (C06 binary leg): the ways reading a file can go other than "all at once": the N-th
+// read of the spokfile fails with EIO (strace fault injection), or the spokfile is a named pipe that
+// delivers its bytes in bursts. spok either says it could not read the file (non-zero exit), or lists
+// exactly what it lists for the same bytes in a regular file - never a part of them as if it were all.
+func TestReadFaults(t *testing.T) {
+	s := ev.Open(t, "C06")
+	if f := execReadFaults(t, s, newBox(t)); f != nil || s.Failed() {
+		t.Fatal("violations recorded")
+	}
+}
+
+// execReadFaults runs the whole (small) space; with s == nil (replay) it returns the first failure.
+func execReadFaults(t *testing.T, s *ev.Shard, b *sandbox.Box) *rp.Fail {
+	var sb strings.Builder
+	sb.WriteString("FIRST := \"head\"\n\n")
+	for i := 0; sb.Len() < 20000; i++ {
+		fmt.Fprintf(&sb, "# does t%s\ntask t%s(\"in.txt\") {\n    echo %d\n}\n\nV%s := \"value %d\"\n\n", gen.Letters(i), gen.Letters(i), i, gen.Letters(i), i)
+	}
+	sb.WriteString("LAST := \"tail\"\n")
+	src := sb.String()
+	seen := map[string]bool{}
+	var first *rp.Fail
+	report := func(sig, msg string, c any) {
+		if first == nil {
+			first = &rp.Fail{Sig: sig, Msg: msg, Size: 1}
+		}
+		if !seen[sig] && s != nil {
+			seen[sig] = true
+			s.Violation("readfault", sig, msg, 1, c)
+		}
+	}
+	eval := func(class string, c any) {
+		if s != nil {
+			s.Eval()
+			s.Class(class)
+			s.NonTrivial(fmt.Sprint(c))
+		}
+	}
+	setup := func() (string, bool) {
+		if err := b.ResetAs(""); err != nil {
+			t.Fatal(err)
+		}
+		if err := writeProject(b, b.Proj, map[string]string{"spokfile": src, "in.txt": "x"}); err != nil {
+			t.Fatal(err)
+		}
+		return filepath.Join(b.Proj, "spokfile"), true
+	}
+	baseline := map[string]string{}
+	path, _ := setup()
+	for _, action := range []string{"--show", "--vars"} {
+		r := b.Run(b.Proj, nil, runTimeout, action)
+		if r.Exit != 0 {
+			t.Fatalf("harness: %s on the unharmed file failed: %s", action, r.Stderr)
+		}
+		baseline[action] = sandbox.Strip(r.Stdout)
+	}
+	if stracePath != "" {
+		for when := 1; when <= 8; when++ {
+			for _, action := range []string{"--show", "--vars"} {
+				c := map[string]any{"spokfile_bytes": len(src), "action": action, "read_that_fails": when}
+				eval("read_error_on_the_spokfile", c)
+				wrapper := []string{stracePath, "-f", "-qq", "-o", "/dev/null", "-P", path, "-e", "trace=read", "-e", fmt.Sprintf("inject=read:error=EIO:when=%d", when)}
+				r := b.RunWrapped(wrapper, b.Proj, nil, runTimeout, action)
+				if r.Exit == 0 && sandbox.Strip(r.Stdout) != baseline[action] {
+					report("part-of-the-file-taken-for-all", fmt.Sprintf("a spokfile of %d bytes whose read number %d fails with EIO: `spok %s` exits 0 and prints\n%s\ninstead of failing or printing what it prints for the whole file (%d bytes of listing)", len(src), when, action, clip(sandbox.Strip(r.Stdout)), len(baseline[action])), c)
+				}
+			}
+		}
+	} else if s != nil {
+		s.Note("strace not available: read errors on the spokfile were not injected")
+	}
+	// a named pipe that delivers the bytes in bursts
+	for _, cut := range []int{1, 100, 4096, 4097, 8192, len(src) / 2, len(src) - 1} {
+		for _, action := range []string{"--show", "--vars"} {
+			path, _ := setup()
+			_ = os.Remove(path)
+			if err := syscall.Mkfifo(path, 0o666); err != nil {
+				t.Fatal(err)
+			}
+			_ = b.Own()
+			c := map[string]any{"spokfile_bytes": len(src), "action": action, "pipe_first_burst": cut}
+			eval("spokfile_is_a_pipe_written_in_bursts", c)
+			done := make(chan struct{})
+			go func() {
+				defer close(done)
+				f, err := os.OpenFile(path, os.O_WRONLY, 0)
+				if err != nil {
+					return
+				}
+				defer f.Close()
+				_, _ = f.WriteString(src[:cut])
+				time.Sleep(30 * time.Millisecond)
+				_, _ = f.WriteString(src[cut:])
+			}()
+			r := b.Run(b.Proj, nil, runTimeout, action)
+			if r.TimedOut {
+				// nobody opened the pipe for reading: unblock the writer
+				if f, err := os.OpenFile(path, os.O_RDONLY|syscall.O_NONBLOCK, 0); err == nil {
+					_ = f.Close()
+				}
+			}
+			<-done
+			if r.Exit == 0 && sandbox.Strip(r.Stdout) != baseline[action] {
+				report("part-of-the-file-taken-for-all", fmt.Sprintf("the same %d bytes read from a named pipe that delivers %d bytes first and the rest 30 ms later: `spok %s` exits 0 and prints\n%s\ninstead of what it prints for the regular file", len(src), cut, action, clip(sandbox.Strip(r.Stdout))), c)
+			}
+		}
+	}
+	return first
 }
 
 func TestDigestBinary(t *testing.T) {
